@@ -33,11 +33,11 @@ BUDGET = {'quick': 240, 'thorough': 3000}
 
 def shards(tier):
     if tier == 'quick':
-        sh = e1.std_shards(tier, with_p=True)
-        sh += space.w_shards(sizes=(31, 65))
+        sh = e1.std_shards(tier, with_p=True, with_big=True)
+        sh += space.w_shards(sizes=(31, 65), kinds=('ordinal',))
     else:
-        sh = e1.std_shards(tier, with_p=True, extra_thorough_shapes=((4, 5), (5, 4)))
-        sh += space.w_shards()
+        sh = e1.std_shards(tier, with_p=True, with_big=True, extra_thorough_shapes=((4, 5), (5, 4)))
+        sh += [s for s in space.w_shards() if s not in sh] + [('W', 'ordinal', 1200)]
     return sh
 
 
